@@ -16,7 +16,7 @@ BUDGET = {"quick": 1400, "thorough": 40000}
 REQUIRED = ["feature:patch", "feature:zone", "feature:project_side", "feature:project_edge", "feature:project_corner",
             "feature:merge", "feature:default_patch", "feature:modify_patch", "feature:settings", "feature:delete",
             "feature:vtk", "feature:shape", "feature:graded", "judged:hex-entry", "judged:patch-quad", "judged:projected-face",
-            "judged:vtk-cell", "judged:geometry-entry", "kind:box", "kind:extrude", "kind:revolve", "kind:loft", "kind:taper", "judged:edgeGrading-slot", "feature:pre-history"]
+            "judged:vtk-cell", "judged:geometry-entry", "kind:box", "kind:extrude", "kind:revolve", "kind:loft", "kind:taper", "judged:edgeGrading-slot", "feature:pre-history", "feature:delete-after-clear"]
 MIN_KEYS = 40
 RULE = (
     "random programs: a touching lattice assembly of lofts (24 orientations) + 0-3 disjoint Box / Extrude / Revolve + "
@@ -164,7 +164,7 @@ def gen_case(ctx):
     return {"ops": ops, "shape": shape, "deleted": deleted, "merges": merges, "geometry": geometry,
             "default": rng.choice([None, None, ["defPatch", "wall"], ["rest", "patch"]]), "modify": modify,
             "settings": settings, "vtk": rng.random() < 0.5, "delete_shape_op": rng.random() < 0.3,
-            "pre_history": rng.choice([None, None, "assemble", "clear", "backport"])}
+            "pre_history": rng.choice([None, None, "assemble", "clear", "clear", "backport"]), "late_delete": rng.random() < 0.6}
 
 
 def build(case, cb):
@@ -220,10 +220,12 @@ def build(case, cb):
         if sh["start_patch"]:
             shape.set_start_patch(sh["start_patch"])
         mesh.add(shape)
-    for i in case["deleted"]:
-        mesh.delete(objs[i])
-    if shape is not None and case["delete_shape_op"]:
-        mesh.delete(shape.operations[-1])
+    late = case.get("pre_history") == "clear" and case.get("late_delete")
+    if not late:
+        for i in case["deleted"]:
+            mesh.delete(objs[i])
+        if shape is not None and case["delete_shape_op"]:
+            mesh.delete(shape.operations[-1])
     for m, s in case["merges"]:
         mesh.merge_patches(m, s)
     if case["default"]:
@@ -241,6 +243,13 @@ def build(case, cb):
     elif case.get("pre_history") == "clear":
         mesh.assemble()
         mesh.clear()
+        if late:
+            # deletions declared on the cleared mesh: nothing of the first assembly (vertex numbers, projected faces,
+            # patches) may survive into the file
+            for i in case["deleted"]:
+                mesh.delete(objs[i])
+            if shape is not None and case["delete_shape_op"]:
+                mesh.delete(shape.operations[-1])
     elif case.get("pre_history") == "assemble":
         mesh.assemble()
     return mesh, objs, shape
@@ -270,6 +279,8 @@ def run_case(ctx, case):
     feats = _features(case)
     for f in feats:
         ctx.count(f"feature:{f}")
+    if case.get("pre_history") == "clear" and case.get("late_delete") and case["deleted"]:
+        ctx.count("feature:delete-after-clear")
     for op in case["ops"]:
         ctx.count(f"kind:{op['kind']}")
     ctx.key([sorted(feats), len(case["ops"]), sorted({o["kind"] for o in case["ops"]}), case["shape"]["kind"] if case["shape"] else None],
